@@ -23,9 +23,10 @@ def zero_send_sites(prog, world, sem):
     """every BankMsg::Send and every non-empty `funds`: (contract, vis, bb, descr key, amounts)"""
     out = []
     for c in CONTRACTS:
-        ex = entry(prog, c)
-        seen = set()
-        for (vis, bb, i, e) in message_effects(sem, explore(sem, ex)):
+      ex = entry(prog, c)
+      adt_path, adt = msg_enum(prog, ex)
+      for vn in [x["name"] for x in adt["variants"]]:
+        for (vis, bb, i, e) in message_effects(sem, explore(sem, ex, variant_env(prog, ex, vn))):
             coins = None
             kind = None
             if e.info[0].endswith("BankMsg") and e.info[1] == "Send":
@@ -43,7 +44,7 @@ def zero_send_sites(prog, world, sem):
             elems = vec_elems(world, coins)
             if elems == []:
                 continue
-            k = (vis.body.path, bb, i)
+            k = "%s::%s" % (c, vn)
             out.append((c, vis, bb, kind, to, elems, e, k))
     return out
 
@@ -73,12 +74,13 @@ def run(prog, world, sem, rep):
             amt, denom = coin_parts(world, sem, coin)
             aid = world.ident(amt)
             dl = sem.label(denom)
-            key = "C17.a | %s | %s{to=%s, denom=%s}" % (vis.body.path, kind, lab_short(to), lab_short(dl))
+            # a site is named by the message variant that reaches it and what it sends, not by the function it happens to sit in
+            key = "C17.a | %s | %s{to=%s, denom=%s}" % (k, kind, lab_short(to), lab_short(dl))
 
             def fp(f, resolve, aid=aid):
                 return is_zero_fact(world, f, resolve, aid)
             ok, d = site_guarded(sem, vis, bb, fp)
-            rep.ob("C17.a", "%s %s{to=%s, denom=%s}" % (vis.body.path, kind, lab_short(to), lab_short(dl)), ok,
+            rep.ob("C17.a", "%s %s{to=%s, denom=%s}" % (k, kind, lab_short(to), lab_short(dl)), ok,
                    "coin amount %s is not checked to be non-zero before the transfer is emitted (%s)" % (show(aid, 4), d) if not ok else d,
                    where(vis.body, bb), key=key, fkey="%s{to=%s, denom=%s}" % (kind, lab_short(to), lab_short(dl)))
 
